@@ -532,7 +532,7 @@ class C12(Property):
     # -- generator --------------------------------------------------------------------
     def generate(self, rng: random.Random, tier: str):
         yield from self.gen_fixed(tier)
-        kinds = ["read", "read", "avail", "merge", "query", "colors", "colors", "colors", "namever", "namever",
+        kinds = ["read", "read", "avail", "merge", "query", "colors", "colors", "colors", "namever", "namever", "nameverq",
                  "cellsize", "cellsize", "kitty", "kitty", "iterm", "auto", "auto", "parsers", "parsers", "xparse"]
         while True:
             k = rng.choice(kinds)
@@ -693,6 +693,28 @@ class C12(Property):
         extra_line = f" {f_ob(env[0])} {f_ob(env[1])}"
         yield self._term_case(rng, "namever", replies, REQ["namever"], sem=sem, wellformed=wellformed, mode=mode,
                               extra_line=extra_line, extra={"env": list(env)})
+
+    def gen_nameverq(self, rng):
+        """XTVERSION replies that are NOT valid UTF-8 (Latin-1 name byte, stray 0xFF/0xC3, truncated sequence), whole and in
+        time, DA1 answered or not: the unchanged code raises UnicodeDecodeError - after the drain. Only what the call leaves
+        on the tty is compared and judged (op `nameverq`): no byte of its replies may stay queued for the next reader."""
+        name, paren = rng.choice(NAMES)
+        ver = rnd_version(rng, name).encode()
+        bad = rng.choice([b"\xe9", b"\xff", b"\xc3", b"\xe6\x97", b"\x80"])
+        nm = name.encode()
+        if rng.random() < 0.5:
+            ver = ver + bad if rng.random() < 0.5 else bad + ver
+        else:
+            nm = nm + bad  # the name group ends here (re.ASCII); still bytes of the reply
+        t = rng.choice([ST, ST, BEL])
+        r = b"\x1bP>|" + nm + (b"(" + ver + b")" if paren else b" " + ver) + t
+        replies = {"ver": r.hex()}
+        if rng.random() < 0.85:
+            replies["da1"] = rnd_da1(rng).hex()
+        env = rng.choice([(None, None), ("WezTerm", "20230712")])
+        yield self._term_case(rng, "nameverq", replies, REQ["namever"], sem={}, wellformed=True,
+                              mode=rng.choice(["unit", "unit", "unit", "any"]),
+                              extra_line=f" {f_ob(env[0])} {f_ob(env[1])}", extra={"env": list(env)})
 
     def gen_cellsize(self, rng):
         cols, rows = rng.choice([(80, 30), (80, 30), (120, 40), (1, 1), (200, 1), (0, 0), (0, 24), (80, 0), (7, 3)])
@@ -951,6 +973,19 @@ class C12(Property):
             vt.environ["TERM_PROGRAM_VERSION"] = env[1]
         return self._guard(lambda: utils.get_terminal_name_version(), lambda r: f_ob(r[0]) + " " + f_ob(r[1]))
 
+    def run_nameverq(self, d):
+        vt = self._setup(d)
+        env = d["env"]
+        if env[0] is not None:
+            vt.environ["TERM_PROGRAM"] = env[0]
+        if env[1] is not None:
+            vt.environ["TERM_PROGRAM_VERSION"] = env[1]
+        try:
+            utils.get_terminal_name_version()
+        except Exception:  # noqa: BLE001 — whatever it returns or raises: only what it leaves on the tty counts here
+            pass
+        return "ok" + tail()
+
     def run_cellsize(self, d):
         vt = self._setup(d, swap=d["swap"])
         vt.size = (d["cols"], d["rows"])
@@ -1078,7 +1113,7 @@ class C12(Property):
                            f"time although the timeout is {d.get('T')} (it must give up and return the documented default)")
         if op == "xparse":
             return oracle_xparse(d["body"], impl_result) if d.get("conformant") else None
-        if op not in ("colors", "namever", "cellsize", "kitty", "auto"):
+        if op not in ("colors", "namever", "nameverq", "cellsize", "kitty", "auto"):
             return None
         f = oracle_auto_style(d, impl_result) if op == "auto" else None
         f = f or oracle_call(d, impl_result)
